@@ -235,6 +235,9 @@ class PropertyDescriptorRelation(PredicateClassRelation):
         Infer transitive relations incoming to the target.
         """
         for nxt_relation in self.source_incoming_relations_with_same_descriptor_type:
+            if nxt_relation.source.instance is None:
+                # collected already, its node is removed from the graph at the next sweep
+                continue
             self.__class__(
                 nxt_relation.source,
                 self.target,
